@@ -286,8 +286,9 @@ def np_array(I, obj, dtype=None, copy=True, **kw):
         raise Unsupported(f'np.array of {obj.cls.name}')
     if isinstance(obj, Arr):
         if copy:
-            n = Arr(obj.shape, obj.fn, _dt(dtype) or obj.dtype)
+            n = Arr(obj.shape, obj.fn, obj.dtype)
             n.unit = obj.unit
+            n.cid = obj.cid
             if dtype is not None:
                 n = astype(I, n, dtype)
             return n
@@ -341,7 +342,7 @@ def np_array(I, obj, dtype=None, copy=True, **kw):
     if obj is None or isinstance(obj, str):
         return Arr((), lambda idx: obj, 'object')
     need_num(I, obj, 'array')
-    a = Arr((), lambda idx: obj, _dt(dtype) or ('bool' if kind_of(obj) == 'bool' else 'int' if kind_of(obj) == 'int' else 'float'))
+    a = Arr((), lambda idx: obj, ('bool' if kind_of(obj) == 'bool' else 'int' if kind_of(obj) == 'int' else 'float'))
     if dtype is not None:
         a = astype(I, a, dtype)
     return a
@@ -360,7 +361,9 @@ def _dt(dtype):
 def astype(I, a, dtype):
     dt = _dt(dtype)
     if dt == a.dtype or dt is None:
-        return Arr(a.shape, a.fn, a.dtype)
+        n = Arr(a.shape, a.fn, a.dtype)
+        n.cid = a.cid
+        return n
     Bm = _B()
     if dt == 'bool':
         return Bm.arr_map(I, lambda e: Bm.b_bool(I, e), a, dtype='bool')
@@ -394,7 +397,9 @@ def flatten(I, a):
     if isinstance(a.shape, ShapeTag):
         raise Unsupported('flatten of opaque shape')
     if len(a.shape) == 1:
-        return Arr(a.shape, a.fn, a.dtype)
+        r1 = Arr(a.shape, a.fn, a.dtype)
+        r1.cid = a.cid
+        return r1
     Bm = _B()
     n = 1
     for d in a.shape:
